@@ -6,6 +6,7 @@ import sqlite3 as _sq
 import time
 
 from . import common
+from . import sched_d39 as D39
 from . import sched_families as FAM
 from . import sched_graph as SG
 from . import sched_scenarios as SC
@@ -805,6 +806,25 @@ def oracle(ctx):
         fail("termination:validate:unchanged:same-job-dispatchable-again", "termination",
              f"after the outcome that executor.validate_dynamic_job produces for an unchanged digest "
              f"(set_state{tuple(r['repo_outcome'])}) pop_next_job hands out the same {r['repo_outcome_next']!r} job again", r)
+    # D39: the two witness histories of C10_deferred_is_justified_refuted_without_repair (sequential: needs the
+    # trigger step_node_undefer_reattached; race: needs the flag computed in the outcome transaction)
+    for race in (False, True):
+        r = run(D39.replay_d39(race), timeout=120)
+        ctx.case(("replay", "d39", race), True)
+        name = "replay:D39:" + ("race" if race else "sequential")
+        ctx.stats["replay_d39_" + ("race" if race else "sequential")] = {
+            "stuck": r["stuck"], "user": r["states"].get("user"), "validated": r["validated"]}
+        if not (r["build1_terminated"] and r["build1_all_succeeded"] and r["validated"] and r["build2_terminated"]):
+            fail("replay:d39:witness-not-reproduced", name,
+                 "the D39 history no longer reaches the 'digest unchanged' validation of `user` (or a phase does not end): "
+                 f"{r['trace']}", {"replay": name, "trace": r["trace"], "states": r["states"]})
+        elif r["stuck"]:
+            fail(D39.SIG_RACE if race else D39.SIG, name,
+                 f"build 2 ended with {r['stuck']} PENDING, attached, needed, safe, ready, every dynamic input attached and "
+                 "BUILT -- and deferred: the input a/x.txt was detached when the validation job was derived and came back "
+                 "unchanged by a full recycle " + ("BEFORE the outcome of the validation was committed" if race else
+                                                    "after the step was parked") + "; nothing clears the flag",
+                 {"replay": name, "trace": r["trace"], "states": r["states"], "stuck": r["stuck"], "after": r["after"]})
     # deterministic replays of the Coq refutation witnesses (regressions for the fixed D18 and D8)
     r = run(M.replay_d11(), timeout=60)
     ctx.case(("replay", "d11"), True)
